@@ -9,7 +9,7 @@ from ..core import Result, fs, F
 
 ID = "C03"
 RULE = ("same instance generator as C02 (three formulations, strict/non-strict, before/after the heuristic), feasibility mode with the default "
-        "penalty; all 2^n vectors for n <= 16 (thorough 18): value >= 0, zero set = set of vectors satisfying the object's own linear and quadratic "
+        "penalty; all 2^n vectors for n <= 18 (both tiers): value >= 0, zero set = set of vectors satisfying the object's own linear and quadratic "
         "constraints, minimum 0 iff that set is non-empty; non-trivial = n >= 2 with a non-empty feasible set and at least one infeasible vector; "
         "distinct = distinct case")
 ASSUMPTIONS = [
